@@ -212,6 +212,9 @@ HARNESSES = [
                     'max_proc': 2, 'copy_data_over': True},
                    {'files': 2, 'cells': 1, 'genes': 1, 'clusters': 2,
                     'max_proc': 1, 'same_basename': True},
+                   {'files': 2, 'cells': 1, 'genes': 1, 'clusters': 2,
+                    'max_proc': 1, 'same_basename': True,
+                    'copy_data_over': True},
                    {'cells': 2, 'genes': 2, 'clusters': 1,
                     'normalization': 'raw', 'max_proc': 2},
                    {'cells': 2, 'genes': 1, 'clusters': 2, 'enc': 'csr',
@@ -256,8 +259,12 @@ HARNESSES = [
             expect_reach=['written', 'gene tables differ'], selftest=6,
             split=64),
     Harness('truncate_to_coarser_hierarchy', h_truncate, setup=setup_trunc,
-            cases=[{'sizes': [2, 3]}, {'sizes': [1, 2, 3]}],
+            cases=[{'sizes': [2, 3]}, {'sizes': [1, 2, 3]},
+                   # dropping a leaf level that has as many nodes as the
+                   # level above it
+                   {'sizes': [2, 2]}, {'sizes': [1, 2, 2]}],
             thorough_cases=[{'sizes': [2, 3], 'genes': 2},
+                            {'sizes': [2, 3, 3]},
                             {'sizes': [1, 2, 3]}, {'sizes': [2, 2, 3]},
                             {'sizes': [2, 3, 4]}],
             funcs=['truncate_precompute.truncate_precomputed_stats_file',
